@@ -80,6 +80,11 @@ type Ctl struct {
 	busy   int32 // actors inside a call that is known to return by itself (zero-timeout waits)
 	gids   map[int64]int // goroutine id -> actor (actors started with Go)
 
+	// MinQuiet, when > 0, requires the system to look quiescent continuously for that long
+	// (executors whose library code does network I/O: a goroutine in [IO wait] may be about to
+	// receive a reply that is already on its way).
+	MinQuiet time.Duration
+
 	// MutexBlocked, when set, says that a goroutine waiting for a sync.Mutex (stack given) is
 	// blocked by the library for good — e.g. on the lock of a Pool whose holder is parked at a
 	// gate inside a user callback — and not just about to get a contended lock.
@@ -281,6 +286,7 @@ func (c *Ctl) busyStack(g string) bool {
 func (c *Ctl) Settle(timeout time.Duration) bool {
 	deadline := time.Now().Add(timeout)
 	stable := 0
+	quietSince := time.Now()
 	var lastClock int64 = -1
 	lastN := -1
 	for spin := 0; ; spin++ {
@@ -301,7 +307,10 @@ func (c *Ctl) Settle(timeout time.Duration) bool {
 			stable = 0
 		}
 		lastClock, lastN = clk, len(gs)
-		if quiet && stable >= 2 {
+		if !quiet || stable == 0 {
+			quietSince = time.Now()
+		}
+		if quiet && stable >= 2 && time.Since(quietSince) >= c.MinQuiet {
 			return true
 		}
 		if time.Now().After(deadline) {
